@@ -429,4 +429,472 @@ theorem utf8Valid_eq (p : Bytes) : utf8Valid p = validUtf8 p := by
   unfold utf8Valid
   rw [utf8ValidChecked_ok]
 
+/-! ## asn1.Unmarshal into a string -/
+
+theorem parseTagAndLength_0c (t : Bytes) : parseTagAndLength (0x0c :: t) =
+    match parseLength t with
+    | .error e => .error e
+    | .ok (length, rest) => .ok (⟨0, 12, length, false⟩, rest) := by
+  simp [parseTagAndLength, idx]
+  rfl
+
+/-- `asn1.Unmarshal` into a string on a value that starts with the UTF8String identifier octet -/
+theorem unmarshalChecked_0c (t : Bytes) : unmarshalChecked (0x0c :: t) =
+    match parseLength t with
+    | .error e => .error e
+    | .ok (n, body) =>
+      if body.length < n then .error .err
+      else if validUtf8 (body.take n) then .ok (body.take n, body.drop n)
+      else .error .err := by
+  unfold unmarshalChecked
+  rw [parseTagAndLength_0c]
+  cases h : parseLength t with
+  | error e => simp
+  | ok r =>
+    obtain ⟨n, body⟩ := r
+    simp only [List.isEmpty_cons, Bool.false_eq_true, if_false, tagUTF8String, shorterThan_eq,
+      sliceTo, sliceFrom, parseUTF8String, utf8ValidChecked_ok]
+    by_cases hl : body.length < n
+    · simp [hl]
+    · cases hv : validUtf8 (body.take n) <;> simp [hl, hv]
+
+theorem unmarshalChecked_0c_error (t : Bytes) (e : Fault) (h : unmarshalChecked (0x0c :: t) = .error e) :
+    e = .err := by
+  rw [unmarshalChecked_0c] at h
+  cases hp : parseLength t with
+  | error e' =>
+    rw [hp] at h; cases h
+    exact parseLength_error _ _ hp
+  | ok r =>
+    obtain ⟨n, body⟩ := r
+    rw [hp] at h
+    simp only at h
+    split at h
+    · cases h; rfl
+    · split at h
+      · cases h
+      · cases h; rfl
+
+theorem unmarshalChecked_der (s rest : Bytes) (hv : validUtf8 s = true) (hl : s.length < 2^31) :
+    unmarshalChecked (derUTF8 s ++ rest) = .ok (s, rest) := by
+  unfold derUTF8
+  rw [List.cons_append, List.append_assoc, unmarshalChecked_0c, parseLength_der _ hl]
+  simp [hv]
+
+theorem unmarshalChecked_ok_inv (t s rest : Bytes) (h : unmarshalChecked (0x0c :: t) = .ok (s, rest)) :
+    0x0c :: t = derUTF8 s ++ rest ∧ validUtf8 s = true ∧ s.length < 2^31 := by
+  rw [unmarshalChecked_0c] at h
+  cases hp : parseLength t with
+  | error e' => rw [hp] at h; cases h
+  | ok r =>
+    obtain ⟨n, body⟩ := r
+    rw [hp] at h
+    simp only at h
+    obtain ⟨ht, hn⟩ := parseLength_ok_inv _ _ _ hp
+    split at h
+    · cases h
+    · rename_i hlen
+      split at h
+      · rename_i hv
+        simp only [Except.ok.injEq, Prod.mk.injEq] at h
+        obtain ⟨rfl, rfl⟩ := h
+        have hl : (body.take n).length = n := by simp; omega
+        refine ⟨?_, hv, by omega⟩
+        unfold derUTF8
+        rw [hl, ht, List.cons_append, List.append_assoc, List.take_append_drop]
+      · cases h
+
+/-! ## extractRole -/
+
+theorem oid_eq : modbusRoleOID = roleOID := rfl
+
+theorem isRoleValue_unique {v s s' : Bytes} (h : IsRoleValue v s) (h' : IsRoleValue v s') : s = s' := by
+  have a := unmarshalChecked_der s [] h.2.1 h.2.2
+  have b := unmarshalChecked_der s' [] h'.2.1 h'.2.2
+  rw [List.append_nil, ← h.1] at a
+  rw [List.append_nil, ← h'.1, a] at b
+  simpa using b
+
+theorem derLength_ne_nil (n : Nat) : derLength n ≠ [] := by
+  unfold derLength; split <;> simp
+
+theorem roleLoop_skip (e : Ext) (more : List Ext) (st : St) (h : e.id ≠ modbusRoleOID) :
+    roleLoop (e :: more) st = roleLoop more st := by
+  simp [roleLoop, h]
+
+theorem roleLoop_found : ∀ (exts : List Ext) (st : St), st.found = true →
+    roleLoop exts st = .ok (if roleExts exts = [] then st else { st with badCert := true }) := by
+  intro exts
+  induction exts with
+  | nil => intro st _; simp [roleLoop, roleExts]
+  | cons e more ih =>
+    intro st hf
+    by_cases h : e.id = modbusRoleOID
+    · simp [roleLoop, h, hf, roleExts, ← oid_eq]
+    · rw [roleLoop_skip _ _ _ h, ih st hf]
+      simp [roleExts, ← oid_eq, h]
+
+theorem roleLoop_good (e : Ext) (more : List Ext) (st : St) (s : Bytes) (h : e.id = modbusRoleOID)
+    (hf : st.found = false) (hv : IsRoleValue e.value s) :
+    roleLoop (e :: more) st = roleLoop more { st with found := true, role := s } := by
+  obtain ⟨hd, hval, hlen⟩ := hv
+  have hu := unmarshalChecked_der s [] hval hlen
+  rw [List.append_nil, ← hd] at hu
+  have h2 : shorterThan e.value 2 = false := by
+    rw [shorterThan_eq, hd]
+    unfold derUTF8
+    have := derLength_ne_nil s.length
+    cases hh : derLength s.length with
+    | nil => exact absurd hh this
+    | cons a b => simp
+  have h0 : idx e.value 0 = .ok 0x0c := by rw [hd]; rfl
+  simp [roleLoop, h, hf, h2, h0, hu]
+
+theorem roleLoop_bad (e : Ext) (more : List Ext) (st : St) (h : e.id = modbusRoleOID)
+    (hf : st.found = false) (hv : ¬ ∃ s, IsRoleValue e.value s) :
+    ∃ st', roleLoop (e :: more) st = .ok st' ∧ st'.badCert = true := by
+  simp only [roleLoop, h, if_true, hf, Bool.false_eq_true, if_false]
+  split
+  · exact ⟨_, rfl, rfl⟩
+  · rename_i h2
+    cases hv' : e.value with
+    | nil => simp [hv', shorterThan] at h2
+    | cons v0 t =>
+      simp only [idx, List.getElem?_cons_zero]
+      by_cases h0 : v0 = 0x0c
+      · subst h0
+        simp only [bne_self_eq_false, Bool.false_eq_true, if_false]
+        cases hu : unmarshalChecked (0x0c :: t) with
+        | error fe =>
+          have := unmarshalChecked_0c_error _ _ hu
+          subst this
+          exact ⟨_, rfl, rfl⟩
+        | ok r =>
+          obtain ⟨s, rest⟩ := r
+          cases rest with
+          | cons a b => exact ⟨_, rfl, rfl⟩
+          | nil =>
+            exfalso
+            apply hv
+            obtain ⟨h1, h2, h3⟩ := unmarshalChecked_ok_inv _ _ _ hu
+            exact ⟨s, by rw [hv', h1, List.append_nil], h2, h3⟩
+      · rw [if_pos (by simpa using h0)]
+        exact ⟨_, rfl, rfl⟩
+
+
+theorem roleExts_cons_role (x : Ext) (xs : List Ext) (h : x.id = modbusRoleOID) :
+    roleExts (x :: xs) = x :: roleExts xs := by
+  simp [roleExts, ← oid_eq, h]
+
+theorem roleExts_cons_other (x : Ext) (xs : List Ext) (h : x.id ≠ modbusRoleOID) :
+    roleExts (x :: xs) = roleExts xs := by
+  simp [roleExts, ← oid_eq, h]
+
+/-- what the loop computes, by the list of role extensions of the certificate -/
+theorem roleLoop_scan : ∀ (exts : List Ext) (st : St), st.found = false → st.badCert = false →
+    ∃ st', roleLoop exts st = .ok st' ∧
+      (roleExts exts = [] → st' = st) ∧
+      (∀ e, roleExts exts = [e] → ∀ s, IsRoleValue e.value s → st'.badCert = false ∧ st'.role = s) ∧
+      (∀ e, roleExts exts = [e] → (¬ ∃ s, IsRoleValue e.value s) → st'.badCert = true) ∧
+      (2 ≤ (roleExts exts).length → st'.badCert = true) := by
+  intro exts
+  induction exts with
+  | nil =>
+    intro st _ _
+    exact ⟨st, rfl, fun _ => rfl, by simp [roleExts], by simp [roleExts], by simp [roleExts]⟩
+  | cons x xs ih =>
+    intro st hf hb
+    by_cases h : x.id = modbusRoleOID
+    · rw [roleExts_cons_role x xs h]
+      by_cases hg : ∃ s, IsRoleValue x.value s
+      · obtain ⟨s, hs⟩ := hg
+        rw [roleLoop_good x xs st s h hf hs, roleLoop_found _ _ rfl]
+        refine ⟨_, rfl, by simp, ?_, ?_, ?_⟩
+        · intro e he s' hs'
+          simp only [List.cons.injEq] at he
+          obtain ⟨rfl, hxs⟩ := he
+          rw [if_pos hxs]
+          exact ⟨hb, isRoleValue_unique hs hs'⟩
+        · intro e he hne
+          simp only [List.cons.injEq] at he
+          exact absurd ⟨s, he.1 ▸ hs⟩ hne
+        · intro hl
+          have : roleExts xs ≠ [] := by
+            intro h0; rw [h0] at hl; simp at hl
+          rw [if_neg this]
+      · obtain ⟨st', hst, hbad⟩ := roleLoop_bad x xs st h hf hg
+        refine ⟨st', hst, by simp, ?_, fun _ _ _ => hbad, fun _ => hbad⟩
+        intro e he s hs
+        simp only [List.cons.injEq] at he
+        exact absurd ⟨s, he.1 ▸ hs⟩ hg
+    · rw [roleExts_cons_other x xs h, roleLoop_skip _ _ _ h]
+      exact ih st hf hb
+
+/-- `extractRole` never faults -/
+theorem extractRoleChecked_ok (exts : List Ext) : extractRoleChecked exts = .ok (extractRole exts) := by
+  unfold extractRole extractRoleChecked
+  obtain ⟨st', h, -⟩ := roleLoop_scan exts ⟨[], false, false⟩ rfl rfl
+  rw [h]
+
+theorem extractRole_faithful (exts : List Ext) (e : Ext) (s : Bytes) (h1 : roleExts exts = [e])
+    (hv : IsRoleValue e.value s) : extractRole exts = s := by
+  unfold extractRole extractRoleChecked
+  obtain ⟨st', h, -, h2, -⟩ := roleLoop_scan exts ⟨[], false, false⟩ rfl rfl
+  obtain ⟨hb, hr⟩ := h2 e h1 s hv
+  rw [h]
+  simp [hb, hr]
+
+theorem extractRole_empty (exts : List Ext) (hn : ¬ ∃ s, HasRole exts s) : extractRole exts = [] := by
+  unfold extractRole extractRoleChecked
+  obtain ⟨st', h, h0, -, h3, h4⟩ := roleLoop_scan exts ⟨[], false, false⟩ rfl rfl
+  rw [h]
+  simp only
+  cases hre : roleExts exts with
+  | nil => rw [h0 hre]; rfl
+  | cons e more =>
+    cases more with
+    | nil =>
+      have : ¬ ∃ s, IsRoleValue e.value s := fun ⟨s, hs⟩ => hn ⟨s, e, hre, hs⟩
+      rw [h3 e hre this]; rfl
+    | cons e' more' =>
+      rw [h4 (by rw [hre]; simp)]; rfl
+
+/-! ## the spec functions against their declarative readings -/
+
+theorem validUtf8_step (b0 : Byte) (r0 : Bytes) : validUtf8 (b0 :: r0) =
+    (wf1 b0 && validUtf8 r0 ||
+      (match r0 with
+       | [] => false
+       | b1 :: r1 =>
+         (wf2 b0 b1 && validUtf8 r1 ||
+           (match r1 with
+            | [] => false
+            | b2 :: r2 =>
+              (wf3 b0 b1 b2 && validUtf8 r2 ||
+                (match r2 with
+                 | [] => false
+                 | b3 :: r3 => wf4 b0 b1 b2 b3 && validUtf8 r3)))))) := by
+  rw [validUtf8.eq_def]; rfl
+
+theorem wellFormed_of_valid : ∀ (n : Nat) (bs : Bytes), bs.length ≤ n → validUtf8 bs = true →
+    WellFormedUtf8 bs := by
+  intro n
+  induction n with
+  | zero =>
+    intro bs hl _
+    have : bs = [] := List.eq_nil_of_length_eq_zero (by omega)
+    subst this; exact .nil
+  | succ n ih =>
+    intro bs hl hv
+    cases bs with
+    | nil => exact .nil
+    | cons b0 r0 =>
+      rw [validUtf8_step] at hv
+      simp only [Bool.or_eq_true, Bool.and_eq_true] at hv
+      simp only [List.length_cons] at hl
+      rcases hv with ⟨h1, h2⟩ | hv
+      · exact .seq [b0] r0 h1 (ih _ (by omega) h2)
+      · cases r0 with
+        | nil => simp at hv
+        | cons b1 r1 =>
+          simp only [Bool.or_eq_true, Bool.and_eq_true, List.length_cons] at hv hl
+          rcases hv with ⟨h1, h2⟩ | hv
+          · exact .seq [b0, b1] r1 h1 (ih _ (by omega) h2)
+          · cases r1 with
+            | nil => simp at hv
+            | cons b2 r2 =>
+              simp only [Bool.or_eq_true, Bool.and_eq_true, List.length_cons] at hv hl
+              rcases hv with ⟨h1, h2⟩ | hv
+              · exact .seq [b0, b1, b2] r2 h1 (ih _ (by omega) h2)
+              · cases r2 with
+                | nil => simp at hv
+                | cons b3 r3 =>
+                  simp only [Bool.and_eq_true, List.length_cons] at hv hl
+                  exact .seq [b0, b1, b2, b3] r3 hv.1 (ih _ (by omega) hv.2)
+
+theorem valid_of_wellFormed {bs : Bytes} (h : WellFormedUtf8 bs) : validUtf8 bs = true := by
+  induction h with
+  | nil => rfl
+  | seq q r hq _ ih =>
+    rcases q with _ | ⟨b0, _ | ⟨b1, _ | ⟨b2, _ | ⟨b3, _ | ⟨b4, q'⟩⟩⟩⟩⟩ <;>
+      simp [wellFormedSeq] at hq <;> (rw [List.cons_append, validUtf8_step]; simp [hq, ih])
+
+/-- `validUtf8` decides "is a concatenation of well-formed UTF-8 byte sequences" (Unicode D92) -/
+theorem validUtf8_iff_wellFormed (bs : Bytes) : validUtf8 bs = true ↔ WellFormedUtf8 bs :=
+  ⟨wellFormed_of_valid bs.length bs (Nat.le_refl _), valid_of_wellFormed⟩
+
+theorem derLength_length_le (n : Nat) (h : n < 2^31) : (derLength n).length ≤ 5 := by
+  unfold derLength
+  split
+  · simp
+  · have := beDigits_length_le 4 n (by omega)
+    simp; omega
+
+theorem decodeRole_some_imp {v s : Bytes} (h : decodeRole v = some s) : IsRoleValue v s := by
+  unfold decodeRole at h
+  obtain ⟨k, _, hk⟩ := List.exists_of_findSome?_eq_some h
+  simp only at hk
+  split at hk
+  · rename_i hc
+    simp only [Bool.and_eq_true, beq_iff_eq, decide_eq_true_eq] at hc
+    cases hk
+    exact ⟨hc.1.1, hc.1.2, hc.2⟩
+  · cases hk
+
+theorem decodeRole_of_isRoleValue {v s : Bytes} (h : IsRoleValue v s) : decodeRole v = some s := by
+  cases hd : decodeRole v with
+  | some s' => rw [isRoleValue_unique h (decodeRole_some_imp hd)]
+  | none =>
+    exfalso
+    unfold decodeRole at hd
+    rw [List.findSome?_eq_none_iff] at hd
+    have hk := derLength_length_le s.length h.2.2
+    have := hd (1 + (derLength s.length).length) (by simp; omega)
+    have hdrop : v.drop (1 + (derLength s.length).length) = s := by
+      rw [h.1]; unfold derUTF8
+      rw [Nat.add_comm, List.drop_succ_cons, List.drop_left]
+    simp only [hdrop] at this
+    rw [if_pos (by simp [← h.1, h.2.1, h.2.2])] at this
+    cases this
+
+theorem decodeRole_eq_some_iff (v s : Bytes) : decodeRole v = some s ↔ IsRoleValue v s :=
+  ⟨decodeRole_some_imp, decodeRole_of_isRoleValue⟩
+
+/-- the model agrees with the executable specification on every certificate -/
+theorem extractRole_eq_roleOf (exts : List Ext) : extractRole exts = roleOf exts := by
+  unfold roleOf
+  cases hre : roleExts exts with
+  | nil =>
+    exact extractRole_empty exts (fun ⟨s, e, he, _⟩ => by rw [hre] at he; cases he)
+  | cons e more =>
+    cases more with
+    | cons e' more' =>
+      exact extractRole_empty exts (fun ⟨s, e, he, _⟩ => by rw [hre] at he; cases he)
+    | nil =>
+      simp only
+      cases hd : decodeRole e.value with
+      | some s => exact extractRole_faithful exts e s hre (decodeRole_some_imp hd)
+      | none =>
+        refine extractRole_empty exts (fun ⟨s, e', he, hv⟩ => ?_)
+        rw [hre] at he
+        simp only [List.cons.injEq, and_true] at he
+        subst he
+        rw [decodeRole_of_isRoleValue hv] at hd
+        cases hd
+
+/-! ## the two table look-ups are in range (the `getD` defaults are never used) -/
+
+set_option maxRecDepth 10000 in
+theorem firstTable_size : firstTable.size = 256 := by decide
+
+theorem acceptRangesTable_size : acceptRangesTable.size = 16 := by decide
+
+theorem first_index_lt (b : Byte) : b.toNat < firstTable.size := by
+  rw [firstTable_size]; exact b.isLt
+
+theorem acceptRanges_index_lt : ∀ x : Byte, (x >>> 4).toNat < acceptRangesTable.size :=
+  forall_byte (by decide +kernel)
+
+/-! ## named ways of not being a well-formed role value -/
+
+theorem isRoleValue_head {v s : Bytes} (h : IsRoleValue v s) : v.head? = some 0x0c := by
+  rw [h.1]; rfl
+
+theorem isRoleValue_length {v s : Bytes} (h : IsRoleValue v s) : 2 ≤ v.length := by
+  rw [h.1]; unfold derUTF8
+  have := derLength_ne_nil s.length
+  cases hh : derLength s.length with
+  | nil => exact absurd hh this
+  | cons a b => simp
+
+/-- a well-formed TLV followed by anything is not a role value -/
+theorem not_isRoleValue_trailing {s extra s' : Bytes} (hv : validUtf8 s = true) (hl : s.length < 2^31)
+    (he : extra ≠ []) : ¬ IsRoleValue (derUTF8 s ++ extra) s' := by
+  intro h
+  have a := unmarshalChecked_der s extra hv hl
+  have b := unmarshalChecked_der s' [] h.2.1 h.2.2
+  rw [List.append_nil, ← h.1, a] at b
+  simp only [Except.ok.injEq, Prod.mk.injEq] at b
+  exact he b.2
+
+/-- the DER encoding determines the string (for supported lengths) -/
+theorem derUTF8_inj {s s' : Bytes} (hl : s.length < 2^31) (hl' : s'.length < 2^31)
+    (h : derUTF8 s = derUTF8 s') : s = s' := by
+  unfold derUTF8 at h
+  simp only [List.cons.injEq, true_and] at h
+  have a := parseLength_der s.length hl s
+  have b := parseLength_der s'.length hl' s'
+  rw [h, b] at a
+  simp only [Except.ok.injEq, Prod.mk.injEq] at a
+  exact a.2.symm
+
+theorem not_isRoleValue_invalid {s s' : Bytes} (hv : validUtf8 s = false) (hl : s.length < 2^31) :
+    ¬ IsRoleValue (derUTF8 s) s' := by
+  intro h
+  have := derUTF8_inj hl h.2.2 h.1
+  subst this
+  rw [h.2.1] at hv
+  cases hv
+
+/-- a value whose DER parse would be a valid `Unmarshal` is the only way to be a role value -/
+theorem isRoleValue_iff_unmarshal (v s : Bytes) :
+    IsRoleValue v s ↔ (v.head? = some 0x0c ∧ unmarshalUtf8String v = .ok (s, [])) := by
+  constructor
+  · intro h
+    refine ⟨isRoleValue_head h, ?_⟩
+    have a := unmarshalChecked_der s [] h.2.1 h.2.2
+    rw [List.append_nil, ← h.1] at a
+    simp [unmarshalUtf8String, a]
+  · rintro ⟨hh, hu⟩
+    cases v with
+    | nil => cases hh
+    | cons v0 t =>
+      simp only [List.head?_cons, Option.some.injEq] at hh
+      subst hh
+      unfold unmarshalUtf8String at hu
+      cases hc : unmarshalChecked (0x0c :: t) with
+      | error e => rw [hc] at hu; cases hu
+      | ok r =>
+        rw [hc] at hu
+        simp only [Except.ok.injEq] at hu
+        subst hu
+        obtain ⟨h1, h2, h3⟩ := unmarshalChecked_ok_inv _ _ _ hc
+        exact ⟨by rw [h1, List.append_nil], h2, h3⟩
+
+/-- "exactly one role extension, at any position": the explicit form of `roleExts exts = [e]` -/
+theorem roleExts_single_iff (exts : List Ext) (e : Ext) :
+    roleExts exts = [e] ↔
+      ∃ pre post, exts = pre ++ e :: post ∧ e.id = roleOID ∧
+        (∀ x ∈ pre, x.id ≠ roleOID) ∧ (∀ x ∈ post, x.id ≠ roleOID) := by
+  constructor
+  · intro h
+    induction exts with
+    | nil => simp [roleExts] at h
+    | cons x xs ih =>
+      by_cases hx : x.id = roleOID
+      · have hre : roleExts (x :: xs) = x :: roleExts xs := by simp [roleExts, hx]
+        rw [hre] at h
+        simp only [List.cons.injEq] at h
+        obtain ⟨rfl, hxs⟩ := h
+        refine ⟨[], xs, rfl, hx, by simp, ?_⟩
+        intro y hy hyid
+        have : y ∈ roleExts xs := by simp [roleExts, hy, hyid]
+        rw [hxs] at this; cases this
+      · have hre : roleExts (x :: xs) = roleExts xs := by simp [roleExts, hx]
+        rw [hre] at h
+        obtain ⟨pre, post, rfl, hid, hpre, hpost⟩ := ih h
+        refine ⟨x :: pre, post, rfl, hid, ?_, hpost⟩
+        intro y hy
+        rcases List.mem_cons.mp hy with rfl | hy
+        · exact hx
+        · exact hpre y hy
+  · rintro ⟨pre, post, rfl, hid, hpre, hpost⟩
+    have h1 : roleExts pre = [] := by
+      simp only [roleExts, List.filter_eq_nil_iff, beq_iff_eq]; exact hpre
+    have h2 : roleExts post = [] := by
+      simp only [roleExts, List.filter_eq_nil_iff, beq_iff_eq]; exact hpost
+    unfold roleExts at h1 h2 ⊢
+    rw [List.filter_append, h1, List.filter_cons, h2]
+    simp [hid]
+
 end Modbus.Role
